@@ -33,6 +33,24 @@ fn loaded(x: i64) -> i64 {
     x
 }
 
+/// One-slot stash: lets a generated program build a value that refers to itself (a lazy whose
+/// computation forces that same lazy), which the recursion check rejects in plain source. An
+/// embedder's callback registry does the same thing.
+static STASH: Mutex<Option<gluon::vm::api::OpaqueValue<gluon::RootedThread, gluon::vm::api::generic::A>>> = Mutex::new(None);
+
+fn stash(v: gluon::vm::api::OpaqueValue<gluon::RootedThread, gluon::vm::api::generic::A>) {
+    *STASH.lock().unwrap_or_else(|e| e.into_inner()) = Some(v);
+}
+fn stashed(_: ()) -> RuntimeResult<gluon::vm::api::OpaqueValue<gluon::RootedThread, gluon::vm::api::generic::A>, String> {
+    match STASH.lock().unwrap_or_else(|e| e.into_inner()).clone() {
+        Some(v) => RuntimeResult::Return(v),
+        None => RuntimeResult::Panic("nothing stashed".to_string()),
+    }
+}
+pub fn clear_stash() {
+    *STASH.lock().unwrap_or_else(|e| e.into_inner()) = None;
+}
+
 fn load(vm: &Thread) -> vm::Result<ExternModule> {
     ExternModule::new(
         vm,
@@ -41,6 +59,8 @@ fn load(vm: &Thread) -> vm::Result<ExternModule> {
             tick2 => primitive!(2, "verif.fx.tick2", tick2),
             boom => primitive!(1, "verif.fx.boom", boom),
             loaded => primitive!(1, "verif.fx.loaded", loaded),
+            stash => primitive!(1, "verif.fx.stash", stash),
+            stashed => primitive!(1, "verif.fx.stashed", stashed),
         },
     )
 }
